@@ -1,6 +1,7 @@
 package decorator
 
 import (
+	"errors"
 	"fmt"
 	"go/ast"
 	"go/format"
@@ -173,6 +174,24 @@ func (r *FileRestorer) updateImports() error {
 
 	if r.Resolver == nil {
 		return nil
+	}
+
+	// a file that did not parse completely can hold an import spec whose path is not a string
+	// literal (go/parser returns such files together with the error): report it before anything
+	// relies on the paths
+	var invalid error
+	dst.Inspect(r.file, func(n dst.Node) bool {
+		if spec, ok := n.(*dst.ImportSpec); ok && invalid == nil {
+			if spec.Path == nil {
+				invalid = errors.New("import spec without a path")
+			} else if _, err := strconv.Unquote(spec.Path.Value); err != nil {
+				invalid = fmt.Errorf("invalid import path %s: %w", spec.Path.Value, err)
+			}
+		}
+		return invalid == nil
+	})
+	if invalid != nil {
+		return invalid
 	}
 
 	// list of the import block(s)
